@@ -91,10 +91,11 @@ impl Prop for C09 {
     }
 
     fn exhaustive_desc(_tier: Tier) -> String {
-        format!("the complete single-mutation neighbourhood of 6 real meter payloads under the grammar-level catalogue of {} mutations at every node, checksums recomputed", crate::gen::tree::catalogue().len())
+        format!("the complete single-mutation neighbourhood of a showcase file and 6 real meter payloads under the grammar-level catalogue of {} mutations at every node, and the complete single-byte neighbourhood of every type-length field, checksums recomputed", crate::gen::tree::catalogue().len())
     }
 
     fn exhaustive(_tier: Tier, shard: usize, nshards: usize, f: &mut dyn FnMut(&PInput) -> bool) {
         crate::gen::tree::neighbourhood(shard, nshards, &mut |bytes, how| f(&PInput { bytes, how }));
+        crate::gen::tree::tlf_byte_neighbourhood(shard, nshards, &mut |bytes, how| f(&PInput { bytes, how }));
     }
 }
